@@ -173,6 +173,8 @@ def replay(ctx, st, idx):
                 o = plain(out)
                 if o.shape != (ny, nx):
                     return ctx.violation(sig + 'shape', f'multiply shape {o.shape}', case)
+                if kind == 'quantity' and getattr(out, 'unit', None) != u.adu:
+                    return ctx.violation(sig + 'unit', 'multiply of a Quantity lost its unit', case)
                 for j in range(ny):
                     for i in range(nx):
                         c = want[j][i]
@@ -217,6 +219,8 @@ def replay(ctx, st, idx):
                 want = [A_ * d + B_ * wg for d, wg in zip(want, ws)] if len(ws) == len(want) else None
             if want is None or o.ndim != 1 or [float(v) for v in o] != [float(v) for v in want]:
                 return ctx.violation(sig + 'values', f'get_values returned {o.tolist()}, expected {want}', case)
+            if kind == 'quantity' and len(o) and getattr(out, 'unit', None) != u.adu:
+                return ctx.violation(sig + 'unit', 'get_values of a Quantity lost its unit (weighted values of data in adu are in adu)', case)
             if kind != 'int' and want:
                 # the same call on an image in which some pixels are NaN / +-inf: a value is returned for every pixel of positive
                 # weight that is not masked - what the data holds there does not decide whether it is returned
@@ -291,6 +295,8 @@ def trace_validation(ctx):
         box = [x0, x0 + nx, y0, y0 + ny]
         pat = rnd.choice(['ones', 'checker', 'mix', 'half'])
         itype = rnd.choice([int, np.int32, np.int64])
+        if min(box) >= 0 and max(box) < 60000 and rnd.random() < 0.5:
+            itype = rnd.choice([np.uint16, np.uint32, np.uint64])          # corners as unsigned integers (read from a header): offsets from them are negative
         data = np.array([[weight(pat, j, i) / 2.0 for i in range(nx)] for j in range(ny)], dtype=float).reshape(ny, nx)
         mask = RegionMask(data, RegionBoundingBox(itype(box[0]), itype(box[1]), itype(box[2]), itype(box[3])))
         img = make_image(h, w, rnd.choice(['int', 'float_integral']))
